@@ -379,8 +379,14 @@ thread_local! {
 pub fn escaped_panic(rep: &mut Report, ctx: &str, msg: &str) {
     let loc = LAST_PANIC_LOC.with(|c| c.borrow().clone());
     let in_konst = loc.contains("/konst/src/") || loc.contains("/konst_kernel/src/") || loc.contains("/konst_proc_macros/src/");
+    // std panicking while it reads a string (char-boundary / UTF-8 checks in core::str, core::fmt, alloc::string): every
+    // string the harness builds itself is valid, so the offending one was produced by the code under test
+    let std_str = loc.starts_with("/rustc/") && (loc.contains("/core/src/str") || loc.contains("/core/src/fmt") || loc.contains("/alloc/src/str") || loc.contains("/alloc/src/string"))
+        && (msg.contains("char boundary") || msg.contains("utf-8") || msg.contains("Utf8"));
     if in_konst {
         rep.violation(viol("escaped-panic", "engine", String::new(), format!("{ctx}: konst panicked where the reference model defines a result"), "no panic".into(), format!("panic at {loc}: {msg}")));
+    } else if std_str {
+        rep.violation(viol("escaped-panic", "engine", String::new(), format!("{ctx}: a string returned by konst is not valid UTF-8 / not cut on char boundaries"), "valid UTF-8".into(), format!("std panicked while reading it at {loc}: {msg}")));
     } else if rep.machinery_errors.len() < 5 {
         rep.machinery_errors.push(format!("uncaught panic {ctx} at {loc}: {msg}"));
     }
